@@ -377,11 +377,11 @@ MUTANTS = [
     Mutant('tag-renamed-in-encoder-only', SER, 'NumpyOrSetEncoder.default',
            [('replace', "'_is_set'", "'_is_a_set'")], r'C17\.c:NumpyOrSetEncoder\.default:tag'),
     Mutant('decoder-ignores-dtype', SER, 'json_numpy_or_set_obj_hook',
-           [('regex', r"dct\['dtype'\]", "None"), ], r'C17\.c:json_numpy_or_set_obj_hook:_is_numpy_array'),
+           [('regex', r"dct\.get\('dtype'\)", "None")], r'C17\.c:json_numpy_or_set_obj_hook:_is_numpy_array'),
     Mutant('json-only-on-save', RES, 'SimulationResults.load_from_file',
            [('regex', r",\s*'\.json': SimulationResults\._load_from_json_file", '')], r'C17\.d:.*keys'),
     Mutant('benign-reorder-isinstance-branches', SER, 'NumpyOrSetEncoder.default',
-           [('regex', r"(    if isinstance\(obj, set\):\n        return [^\n]*\n)(.*)(    return )", r'\2\1\3')],
+           [('regex', r"(    if isinstance\(obj, np\.ndarray\).*?)(    if isinstance\(obj, set\):\n        return [^\n]*\n)", r'\2\1')],
            None, benign=True),
 ]
 
